@@ -16,7 +16,18 @@ use std::cell::RefCell;
 thread_local! {
     pub static LOG: RefCell<Vec<Entry>> = RefCell::new(vec![]);
 }
+thread_local! {
+    /// addresses at which scripted code has run since the last `driver::new_app()` on this thread: the only
+    /// contracts that can have created another contract, i.e. the creators the independently derived
+    /// instantiate2 address book of the case must cover (print::case_env)
+    pub static RAN_AT: RefCell<std::collections::BTreeSet<String>> = RefCell::new(Default::default());
+}
 pub fn log(e: Entry) {
+    if let Entry::Call { callee, .. } = &e {
+        RAN_AT.with(|r| {
+            r.borrow_mut().insert(callee.clone());
+        });
+    }
     LOG.with(|l| l.borrow_mut().push(e));
 }
 pub fn take_log() -> Vec<Entry> {
